@@ -43,6 +43,7 @@ type SeqSpec struct {
 	Full      bool  // full node (listener, Serve) instead of engine only
 	MaxStates int
 	MonC01    bool // install the C01 grant-rule monitor (checked at every release of a shard mutex)
+	Restart2  bool // with Restart: in the second incarnation every restored hold is unlocked, then the node is stopped and started a third time
 }
 
 // SeqStep is what one step produced.
@@ -55,10 +56,13 @@ type SeqStep struct {
 
 // SeqRun is one executed history.
 type RestartObs struct {
-	Before   *hapi.Snapshot // just before the stop (persistence queue drained)
-	After    *hapi.Snapshot // after the new node has loaded
-	StartErr string
-	Files    []string
+	Before    *hapi.Snapshot // just before the stop (persistence queue drained)
+	After     *hapi.Snapshot // after the new node has loaded
+	Released  []string       // Restart2: "db/key/id" of the holds whose unlock was accepted in the second incarnation
+	After2    *hapi.Snapshot // Restart2: after the third start
+	Start2Err string
+	StartErr  string
+	Files     []string
 }
 
 type SeqRun struct {
@@ -170,6 +174,35 @@ func ExecSeq(spec *SeqSpec, hist []SeqOp) (*SeqRun, string) {
 			}
 			vrt.AdvanceTo(vrt.Elapsed() + 100*ms)
 			ro.After = n2.Snapshot()
+			if spec.Restart2 {
+				n2.ClearEvents()
+				c2 := n2.NewMemClient("z")
+				r := byte(100)
+				for _, k := range ro.After.Keys {
+					for _, h := range k.Holds {
+						u := hapi.Cmd{Type: 2, Req: r, DB: k.DB, Key: k.Key[15], Id: h.LockId[15]}
+						c2.Do(u.Build())
+						vrt.Quiesce()
+						for _, e := range n2.Events() {
+							if e.Req == r && e.Result == 0 {
+								ro.Released = append(ro.Released, fmt.Sprintf("db%d key%x id%x", k.DB, k.Key[15], h.LockId[15]))
+							}
+						}
+						r++
+					}
+				}
+				vrt.AdvanceTo(vrt.Elapsed() + 1500*ms)
+				n2.Poke("flushaof")
+				vrt.Quiesce()
+				vrt.KillGroup(spec.Cfg.WithDefaults().Name)
+				n3 := hapi.Factories["n0"](spec.Cfg)
+				if err := n3.StartEngine(); err != nil {
+					ro.Start2Err = err.Error()
+					return
+				}
+				vrt.AdvanceTo(vrt.Elapsed() + 100*ms)
+				ro.After2 = n3.Snapshot()
+			}
 			return
 		}
 		if spec.Drain {
